@@ -112,8 +112,11 @@ func (fr *Frame) canInline(callee *ssa.Function) bool {
 	if fr.q.opts.NoInline != nil && fr.q.opts.NoInline[fnKey(callee)] {
 		return false
 	}
-	if fr.depth >= fr.q.opts.InlineDepth {
+	if callee.Parent() == nil && fr.depth >= fr.q.opts.InlineDepth {
 		return false
+	}
+	if callee.Parent() != nil && fr.depth >= fr.q.opts.InlineDepth+2 {
+		return false // closures of the function under analysis are part of its body: two more levels
 	}
 	for f := fr; f != nil; f = f.parent {
 		if f.fn == callee {
